@@ -246,6 +246,7 @@ def run(tier):
         # the unhooked state must itself be usable: unhook, then jac
         from . import C16_fd
         C16_fd.check_estimate(reg, src, R)
+        C16_fd.check_converged(reg, src, R)
     except Unsupported as e:
         reg.undecided(PID + "/executor/unsupported", "unsupported", "executor", str(e))
     for ob in list(reg.obligations):
